@@ -54,6 +54,11 @@ def _listing(top):
     return {"current": cur, "arch": arch}
 
 
+# names a project directory may legitimately have
+DIR_NAMES = ["proj[1]", "proj[ab]", "[tests]", "c++ tests", "proj (copy)", "what?", "star*", "a{b,c}", "dollar$", "pipe|x", "caret^",
+             "back\\slash", "sp ace", "dot.dir", "report-1", "reports", "é-ü", "tab\tname", "plus+plus", "!bang", "~tilde", "#hash"]
+
+
 class Hist(C.Stream):
     name = "C19.hist"
     quick_cases = 400
@@ -62,6 +67,10 @@ class Hist(C.Stream):
     thorough_seconds = 400
     # minimal past disagreements / interesting shapes, replayed first
     corpus = [
+        # project directories whose name contains glob / regex metacharacters (D37: `glob` took `[1]` for a class)
+        {"ops": [{"op": "run", "limit": 3}] * 5, "dirname": "proj[1]"},
+        {"ops": [{"op": "run", "limit": 2}] * 4, "dirname": "c++ tests (copy)"},
+        {"ops": [{"op": "run", "limit": None}] * 4, "dirname": "what?*"},
         {"ops": [{"op": "run", "limit": 2}] * 5},
         {"ops": [{"op": "run", "limit": 3}] * 4 + [{"op": "delete", "n": 1}, {"op": "run", "limit": 3}, {"op": "run", "limit": 3}]},
         {"ops": [{"op": "run", "limit": None}] * 3 + [{"op": "delcur"}, {"op": "run", "limit": 1}, {"op": "run", "limit": 1}]},
@@ -91,12 +100,15 @@ class Hist(C.Stream):
                 ops.append({"op": "delete", "n": rng.randint(1, max(2, min(runs, 8)))})
             else:
                 ops.append({"op": "delcur"})
-        return {"ops": ops}
+        return {"ops": ops, "dirname": rng.choice(DIR_NAMES) if rng.random() < 0.45 else "proj"}
 
     def impl(self, case):
         from lemoncheesecake.reporting.reportdir import create_report_dir_with_rotation
 
-        top = tempfile.mkdtemp(prefix="lccverif-c19-")
+        scratch = tempfile.mkdtemp(prefix="lccverif-c19-")
+        # the project directory's own NAME is an input: names with characters that mean something to glob / re / shells
+        top = os.path.join(scratch, case.get("dirname") or "proj")
+        os.mkdir(top)
         states = []
         marker = 0
         try:
@@ -126,7 +138,7 @@ class Hist(C.Stream):
                         shutil.rmtree(p)
                     states.append(_listing(top))
         finally:
-            shutil.rmtree(top, ignore_errors=True)
+            shutil.rmtree(scratch, ignore_errors=True)
         return {"states": states}
 
     def oracle(self, case, obs):
@@ -209,6 +221,7 @@ class Hist(C.Stream):
 
     def features(self, case, obs):
         f = ["len<=10" if len(case["ops"]) <= 10 else "len>10"]
+        f.append("dirname=plain" if (case.get("dirname") or "proj") == "proj" else "dirname=special")
         lims = {str(o.get("limit")) for o in case["ops"] if o["op"] == "run"}
         f += ["limit=" + l for l in sorted(lims)]
         prev = {"arch": []}
